@@ -191,7 +191,7 @@ func C12(c *wk.Ctx) {
 		c.Emit(u)
 		return
 	}
-	units, perUnit := 40, 5
+	units, perUnit := 600, 5
 	if c.Tier == "thorough" {
 		units, perUnit = 20000, 5
 	}
